@@ -13,7 +13,7 @@ Files  == {<<"f">>, <<"f", "i">>, <<"d", "/", "f", ".", "e">>}
 Names  == {<<"n">>, <<"n", "m">>}
 Values == {<<>>, <<"v">>, <<"v", "w">>}
 Absent == <<"x">>
-Query  == <<<<"n">>, <<"n", "m">>, Absent>>
+Query  == <<Absent, <<"n">>, <<"n", "m">>, Absent>>      \* an absent name first and last: a getValue() that threw must not disturb later queries
 
 ParamSeqs == UNION {[1..k -> Names \X Values] : k \in 0..MaxParams}
 
